@@ -619,3 +619,5 @@ PROPS["C07"]["level_text"] += (" ctx_new(): the fresh context becomes the thread
                                "reference); a failing stage releases it exactly once and leaves the thread without context.")
 PROPS["C07"]["not_decided"] = ["ctx_dtor() internals (poll_destroy, map free)", "that m_map_iterate(ctx_destroy_mods) reaches every module (C05 bounded)",
                                "allocation failure of the module table inside ctx_new (returns 0 without a context: seen, not under an obligation -- allocation failure is not modelled in the core units)"]
+# (a real-code unit for process_fd/tmr/sgn/... was tried and dropped: the functions write THROUGH non-first members of the event's union of pointers, which CBMC 6.11 mis-models even with
+# --no-propagation -- three of seven kinds reported values the code cannot produce; left under not_decided of C03 rather than registered with a false alarm)
